@@ -395,6 +395,14 @@ impl<'a, T: Evaluate> PiecewiseEvaluator<'a, T> {
     // instances for references.
     #[inline]
     pub fn evaluate(&mut self, x: f64) -> f64 {
+        // NaN compares false with everything, so it must not take part in the
+        // cursor book-keeping below: storing it in `last_evaluation` would send
+        // every later query down the backwards path with nothing to search.
+        // Answer like `Piecewise::evaluate` does (last segment) and keep state.
+        if x.is_nan() {
+            return self.last.evaluate(x);
+        }
+
         // If the new evaluation is for value higher than previous
         // one, we want to start searching for the segment from the
         // last segment we have recorded: we already know there is no
